@@ -2,6 +2,7 @@ package main
 
 import (
 	"fmt"
+	"os"
 	"go/token"
 	"go/types"
 	"sort"
@@ -500,7 +501,7 @@ func (c *Ctx) havocLoop(fr *frame, l *loopInfo, st *State) {
 			// that existed at loop entry keeps its contents
 			old := c.heapGet(st, k, s)
 			r := BoundVar("r", RefSort)
-			c.assume(st.pc, Forall([]*Term{r}, Implies(ULt(r, st.clk), Eq(Select(nh, r), Select(old, r))), []*Term{Select(nh, r)}))
+			nh = Lambda(r, Ite(ULt(r, st.clk), Select(old, r), Select(nh, r)))
 		}
 		st.heap[k] = nh
 	}
@@ -518,7 +519,7 @@ func (c *Ctx) havocLoop(fr *frame, l *loopInfo, st *State) {
 				oldA := Select(h, r.root)
 				i := BoundVar("i", BV(64))
 				in := And(ULe(r.off, i), ULt(i, Add(r.off, r.n)))
-				c.assume(st.pc, Forall([]*Term{i}, Implies(Not(in), Eq(Select(na, i), Select(oldA, i))), []*Term{Select(na, i)}))
+				na = Lambda(i, Ite(in, Select(na, i), Select(oldA, i)))
 			}
 			st.heap[k] = Store(h, r.root, na)
 		}
@@ -784,10 +785,10 @@ func (c *Ctx) havocTarget(st *State, env *Env, m *Clause) {
 			k := HKey{Elem: true, T: typeKey(mt.et), Leaf: j}
 			h := c.heapGet(st, k, heapSort(true, s))
 			oldA := Select(h, mt.sl[0])
-			na := Fresh("mod."+k.String(), oldA.S)
+			fa := Fresh("mod."+k.String(), oldA.S)
 			i := BoundVar("i", BV(64))
 			in := And(ULe(mt.sl[1], i), ULt(i, Add(mt.sl[1], mt.sl[2])))
-			c.assume(st.pc, Forall([]*Term{i}, Implies(Not(in), Eq(Select(na, i), Select(oldA, i))), []*Term{Select(na, i)}))
+			na := Lambda(i, Ite(in, Select(fa, i), Select(oldA, i)))
 			st.heap[k] = Store(h, mt.sl[0], na)
 		}
 	default:
@@ -892,6 +893,43 @@ func (w *World) findFunction(key string) *ssa.Function {
 }
 
 func (w *World) verifyFunction(fc *FuncContract) (res *FnResult) {
+	if len(fc.Cases) > 0 {
+		// complete case split over the truth values of the listed conditions:
+		// each case is a straight-line path through the corresponding branches
+		var all *FnResult
+		n := len(fc.Cases)
+		for mask := 0; mask < 1<<uint(n); mask++ {
+			if only := os.Getenv("GOVC_CASE"); only != "" && only != fmt.Sprint(mask) {
+				continue
+			}
+			tag := "[case "
+			for i := 0; i < n; i++ {
+				if mask&(1<<uint(i)) != 0 {
+					tag += "1"
+				} else {
+					tag += "0"
+				}
+			}
+			tag += "]"
+			r := w.verifyFunctionCase(fc, mask, tag)
+			if all == nil {
+				all = r
+				for _, o := range r.Obls {
+					o.caseAssumes = r.Assumes
+				}
+			} else {
+				for _, o := range r.Obls {
+					o.caseAssumes = r.Assumes
+				}
+				all.Obls = append(all.Obls, r.Obls...)
+				all.Trivial += r.Trivial
+				if r.Err != "" && all.Err == "" {
+					all.Err = r.Err
+				}
+			}
+		}
+		return all
+	}
 	if fc.SplitParam == "" {
 		return w.verifyFunctionWith(fc, nil, "")
 	}
@@ -920,6 +958,13 @@ func (w *World) verifyFunction(fc *FuncContract) (res *FnResult) {
 
 func (w *World) verifyFunctionWith(fc *FuncContract, splitVal *uint64, tag string) (res *FnResult) {
 	return w.verifyFunctionMode(fc, splitVal, tag, 0)
+}
+
+func (w *World) verifyFunctionCase(fc *FuncContract, mask int, tag string) (res *FnResult) {
+	w.caseMask = mask
+	w.caseActive = true
+	defer func() { w.caseActive = false }()
+	return w.verifyFunctionMode(fc, nil, tag, 0)
 }
 
 func (w *World) verifyFunctionMode(fc *FuncContract, splitVal *uint64, tag string, bmc int) (res *FnResult) {
@@ -975,6 +1020,17 @@ func (w *World) verifyFunctionMode(fc *FuncContract, splitVal *uint64, tag strin
 	env := c.contractEnv(fn, st, args)
 	for _, r := range fc.Requires {
 		c.assume(True, c.evalClause(env, r))
+	}
+	if w.caseActive {
+		c.knownTrue = map[*Term]bool{}
+		for i, cl := range fc.Cases {
+			t := c.evalClause(env, cl)
+			if w.caseMask&(1<<uint(i)) == 0 {
+				t = Not(t)
+			}
+			c.assume(True, t)
+			c.knownTrue[t] = true
+		}
 	}
 	c.flushGlobalInv(st)
 	res.NRequires = len(c.assumes)
